@@ -128,7 +128,7 @@ def lifetimes_crash_family(rng: random.Random, prop: str, world: dict, ctl: Ctl,
             lt["step"] = "explicit"  # resolved against the model at execution time
     lt["writer"] = P.draw_writer(rng)
     lt["ops"] = [{"op": "solve_to", "it": Tmax}, {"op": "wait"}]
-    if prop == "C12" and rng.random() < 0.25:
+    if prop == "C12" and rng.random() < 0.4:
         # someone else opens the directory (load_checkpoint on another solver object) while the
         # final write of this call may still be pending
         lt["writer"] = {"mode": "lazy"}
